@@ -2,7 +2,8 @@
 
    case   = (mode dest0 ops prog sched)
             mode  : 0 = in-memory staging, 1 = temporary-file staging, 2 = temporary-file staging
-                    with a real file as destination.  The model is the same machine for all of
+                    with a real file as destination, 3 / 4 = in-memory / temporary-file staging with a
+                    destination that accepts only 2 / 5 bytes per write() call.  The model is the same machine for all of
                     them (header of Model/TempBuf.v): [mode] is read by the harness only.
             dest0 : bytes already in the destination
             ops   : the producer's calls; a list (b1 b2 ...) is write(&[b1, b2, ...]), an atom is flush()
